@@ -13,7 +13,8 @@ class C35(M.MpiCheck):
     prof = dict(name='C35', np=(2, 4), nmsg=dict(quick=(3, 10), thorough=(3, 12)), ncomm=(0, 1), wild=0.3, probes=0.3,
                 types='basic', psm=True, cap=20000)
     own = ('psm-',)
-    budgets = {'quick': dict(runs=1200, wall=70), 'thorough': dict(runs=20000, wall=780)}
+    probes = M.MpiCheck.probes + ('probe_cross_private_block',)
+    budgets = {'quick': dict(runs=1200, wall=40), 'thorough': dict(runs=20000, wall=780)}
 
     def nontrivial(self, plan, res):
         return res['stats'].get('recvs_checked', 0) >= 1
